@@ -22,7 +22,8 @@ IMPORTS = "From U2F Require Import Base.Prelude Geometry.Model Kern.Model Mark.M
 RULE = ("fonts mixing Latin, Arabic, Hebrew and unencoded glyphs; public.openTypeCategories with valid, 'unassigned', invalid "
         "values and names of absent glyphs; caret_N / vcaret_N anchors (unsorted, duplicate, fractional, x.5); entry/exit anchors "
         "plain, suffixed (.2, .LTR, .RTL), one-sided, with one half missing from the whole font; user GDEF table on/off. "
-        "Non-trivial = the font has at least one cursive pair or caret or category.")
+        "Non-trivial = the font has at least one cursive pair or caret or category."
+        " Compound cursive suffixes (entry.1.LTR, entry.alt.LTR, entry.2.RTL); the same writer objects reused for several fonts must give each font its own data; coordinates 0 and +-1/4.")
 ASSUMPTIONS = []
 
 FN = ("fun c : (list mglyph * list (str * Z) * list str * list (str * Z) * list (str * list Z) * list curs_rec) => "
